@@ -637,8 +637,13 @@ ipc_ep_close(void *arg)
 	NNI_LIST_FOREACH (&ep->nego_pipes, p) {
 		nni_pipe_close(p->pipe);
 	}
-	NNI_LIST_FOREACH (&ep->wait_pipes, p) {
+	while ((p = nni_list_first(&ep->wait_pipes)) != NULL) {
+		// These finished negotiating but were never handed to the
+		// socket, so nobody else will drop the reference we hold
+		// from creating them.
+		nni_list_remove(&ep->wait_pipes, p);
 		nni_pipe_close(p->pipe);
+		nni_pipe_rele(p->pipe);
 	}
 	nni_mtx_unlock(&ep->mtx);
 }
